@@ -72,7 +72,7 @@ class ProgProp(object):
             if "prio" in v:
                 s["prio"] = v["prio"]
             mons = tuple(x for x in self.report if x != "MODEL") if self.monitors == ProgProp.monitors else self.monitors
-            r = progsim.execute(s, mons, staged=self.use_staged(s))
+            r = progsim.execute(s, mons, staged=self.use_staged(s), check_values=not s.get("ctx_fault"))
             from ..worker import merge_stats
             r["stats"]["runs"] = 1
             merge_stats(stats, r["stats"])
@@ -81,7 +81,7 @@ class ProgProp(object):
             if r["stats"]["flushes"] >= 1 and r["stats"]["tasks"] >= 2:
                 nontrivial = True
             for (p, c, m) in r["violations"]:
-                if p in self.report or p == "MODEL":
+                if p in self.report or (p == "MODEL" and ("MODEL" in self.report or self.id == "C01")):
                     out.append((c, m))
             self.extra_checks(s, r, out)
             if out:
@@ -89,6 +89,7 @@ class ProgProp(object):
         # (a NonAsyncContext around a yield of a shared future fails or not depending on whether
         # that future is already computed, i.e. on the flush order: no cross-schedule agreement)
         if not out and self.cross_check and len(set(outcomes)) > 1 and not spec.get("faults", {}).get("flushes") \
+                and not spec.get("ctx_fault") \
                 and '"na"' not in repr(spec["templates"]).replace("'", '"'):
             out.append(("variants-disagree", "calling conventions / flush orders disagree: %r" % (sorted(set(outcomes)),)))
         return {"violations": out, "stats": stats, "sigs": sigs, "nontrivial": nontrivial,
